@@ -235,6 +235,24 @@ async fn e_nerr(_: RequestContext<()>) -> Result<HttpResponseOk<DocOrder>, net::
     Err(net::Error { port: 1 })
 }
 
+// several methods on ONE path whose types collide by name (`Error` from two modules, `Dup`
+// from two modules) or reach the document only through parameters: which of them is met
+// first while the document is assembled must not depend on the registration order
+#[endpoint { method = PUT, path = "/a/disks" }]
+async fn e_serr_put(_: RequestContext<()>, _b: TypedBody<a::Dup>) -> Result<HttpResponseOk<DocOrder>, net::Error> {
+    Err(net::Error { port: 2 })
+}
+#[endpoint { method = DELETE, path = "/a/disks" }]
+async fn e_serr_delete(_: RequestContext<()>, _q: Query<QEnum>) -> Result<HttpResponseOk<b::Dup>, MyError> {
+    Err(MyError { detail: Inner2 { why: "x".into() } })
+}
+#[endpoint { method = GET, path = "/dup" }]
+async fn e_dup_get(_: RequestContext<()>) -> Result<HttpResponseOk<b::Dup>, storage::Error> {
+    Err(storage::Error { disk: "d".into() })
+}
+
+const FAMILY: usize = 16;
+
 fn build(order: &[usize]) -> ApiDescription<()> {
     let mut api = ApiDescription::new();
     for i in order {
@@ -251,6 +269,9 @@ fn build(order: &[usize]) -> ApiDescription<()> {
             9 => api.register(e_err2).unwrap(),
             11 => api.register(e_serr).unwrap(),
             12 => api.register(e_nerr).unwrap(),
+            13 => api.register(e_serr_put).unwrap(),
+            14 => api.register(e_serr_delete).unwrap(),
+            15 => api.register(e_dup_get).unwrap(),
             _ => api.register(e_hidden).unwrap(),
         }
     }
@@ -265,7 +286,7 @@ fn main() {
     let n_orders = if is_thorough() { 200 } else { 25 };
     for o in 0..n_orders {
         // subsets and orders of the family
-        let mut order: Vec<usize> = (0..13).filter(|_| o == 0 || rng.chance(3, 4)).collect();
+        let mut order: Vec<usize> = (0..FAMILY).filter(|_| o == 0 || rng.chance(3, 4)).collect();
         for i in (1..order.len()).rev() {
             let j = rng.below(i as u64 + 1) as usize;
             order.swap(i, j);
